@@ -129,6 +129,47 @@ theorem invSlot_exp (nw : Option (Int × Bool)) (o : Option Obj) (row : Option I
       · simp only [hc, if_true]; slot_done
       · simp only [hc, Bool.false_eq_true, if_false]; exact h
 
+theorem invSlot_expVal (nw : Option (Int × Bool)) (o : Option Obj) (row : Option Int)
+    (h : InvSlot o row) : InvSlot (expValSlot nw o).1.2 row := by
+  unfold expValSlot
+  cases nw with
+  | some p => exact h
+  | none =>
+    cases o with
+    | none => exact h
+    | some ob =>
+      obtain ⟨h1, h2, h3⟩ := h ob rfl
+      by_cases hc : (ob.app && !ob.del) = true
+      · simp only [hc, if_true]; slot_done
+      · simp only [hc, Bool.false_eq_true, if_false]; exact h
+
+theorem invSlot_expId (nw : Option (Int × Bool)) (o : Option Obj) (row : Option Int)
+    (h : InvSlot o row) : InvSlot (expIdSlot nw o).1.2 row := by
+  unfold expIdSlot
+  cases nw with
+  | some p => exact h
+  | none =>
+    cases o with
+    | none => exact h
+    | some ob =>
+      by_cases hc : (ob.app && !ob.del) = true
+      · simp only [hc, if_true]; exact h
+      · simp only [hc, Bool.false_eq_true, if_false]; exact h
+
+theorem invSlot_setDead (nw : Option (Int × Bool)) (o : Option Obj) (row : Option Int)
+    (h : InvSlot o row) : InvSlot (setDeadSlot nw o).1.2 row := by
+  unfold setDeadSlot
+  cases nw with
+  | some p => exact h
+  | none =>
+    cases o with
+    | none => exact h
+    | some ob =>
+      obtain ⟨h1, h2, h3⟩ := h ob rfl
+      by_cases hc : (ob.app && !ob.del) = true
+      · simp only [hc, if_true]; slot_done
+      · simp only [hc, Bool.false_eq_true, if_false]; exact h
+
 theorem inv_putSlot (s : St) (k : Nat) (r : Slot × Out) (h : Inv s) (hk : InvSlot r.1.2 (s.db k)) :
     Inv (putSlot s k r).1 := by
   intro j
@@ -189,7 +230,7 @@ theorem inv_doFlush (c : Cfg) (s s1 : St) (hi : Inv s) (h : doFlush c s = some s
     · simp only [hk, if_false]; exact hi k
 
 theorem inv_expireMap (s : St) (hi : Inv s) :
-    Inv { s with saved := none, fresh := fun _ => false,
+    Inv { s with saved := none, txn := false, fresh := fun _ => false,
                  objs := fun k => (s.objs k).map (fun o => { o with val := none, mod := false }) } := by
   intro k
   simp only
@@ -207,9 +248,8 @@ theorem inv_init : Inv St.init := fun _ => invSlot_none _
 def Calm (c : Cfg) (s : St) (op : Op) : Prop :=
   op ≠ .rollback ∧ (step c s op).2 ≠ .integrity
 
-/-- the invariant holds along every rollback-free history of the reference semantics -/
-theorem inv_step (c : Cfg) (s : St) (op : Op) (hi : Inv s) (hq : Calm c s op) : Inv (step c s op).1 := by
-  obtain ⟨hnr, hni⟩ := hq
+theorem inv_stepLive (c : Cfg) (s : St) (op : Op) (hi : Inv s)
+    (hnr : op ≠ .rollback) (hni : (stepLive c s op).2 ≠ .integrity) : Inv (stepLive c s op).1 := by
   cases op with
   | get k => exact inv_putSlot s k _ hi (invSlot_get _ _ _ (hi k))
   | set k v => exact inv_putSlot s k _ hi (invSlot_set v _ _ _ (hi k))
@@ -217,13 +257,16 @@ theorem inv_step (c : Cfg) (s : St) (op : Op) (hi : Inv s) (hq : Calm c s op) : 
   | add k v => exact inv_putSlot s k _ hi (invSlot_add v _ _ _ (hi k))
   | drop k => exact inv_putSlot s k _ hi (invSlot_drop _ _ _ (hi k))
   | expire k => exact inv_putSlot s k _ hi (invSlot_exp _ _ _ (hi k))
+  | expireVal k => exact inv_putSlot s k _ hi (invSlot_expVal _ _ _ (hi k))
+  | expireId k => exact inv_putSlot s k _ hi (invSlot_expId _ _ _ (hi k))
+  | begin => exact hi
   | flush =>
-    simp only [step] at hni ⊢
+    simp only [stepLive] at hni ⊢
     cases h : doFlush c s with
     | none => simp [h] at hni
     | some s1 => exact inv_doFlush c s s1 hi h
   | commit =>
-    simp only [step] at hni ⊢
+    simp only [stepLive] at hni ⊢
     cases h : doFlush c s with
     | none => simp [h] at hni
     | some s1 =>
@@ -233,6 +276,34 @@ theorem inv_step (c : Cfg) (s : St) (op : Op) (hi : Inv s) (hq : Calm c s op) : 
       · simp only [he, Bool.false_eq_true, if_false]; exact h1
   | rollback => exact absurd rfl hnr
   | len => exact hi
+
+theorem inv_stepDead (c : Cfg) (s : St) (op : Op) (hi : Inv s) : Inv (stepDead c s op).1 := by
+  cases op with
+  | set k v =>
+    simp only [stepDead]
+    split
+    · exact inv_putSlot s k _ hi (invSlot_set v _ _ _ (hi k))
+    · exact inv_putSlot s k _ hi (invSlot_setDead _ _ _ (hi k))
+  | drop k => exact inv_putSlot s k _ hi (invSlot_drop _ _ _ (hi k))
+  | begin => exact hi
+  | len => exact hi
+  | get k => exact hi
+  | del k => exact hi
+  | add k v => exact hi
+  | expire k => exact hi
+  | expireVal k => exact hi
+  | expireId k => exact hi
+  | flush => exact hi
+  | commit => exact hi
+  | rollback => exact hi
+
+/-- the invariant holds along every rollback-free history of the reference semantics -/
+theorem inv_step (c : Cfg) (s : St) (op : Op) (hi : Inv s) (hq : Calm c s op) : Inv (step c s op).1 := by
+  obtain ⟨hnr, hni⟩ := hq
+  unfold step at hni ⊢
+  by_cases hl : live c s = true
+  · simp only [hl, if_true] at hni ⊢; exact inv_stepLive c s op hi hnr hni
+  · simp only [hl, Bool.false_eq_true, if_false]; exact inv_stepDead c s op hi
 
 /-! ## the simulation -/
 
@@ -245,13 +316,20 @@ structure Sim (g s : St) : Prop where
   db : g.db = s.db
   saved : g.saved = s.saved
   new : g.new = s.new
+  txn : g.txn = s.txn
   objs : ∀ k, Rel (g.objs k) (s.objs k)
 
 theorem rel_refl (o : Option Obj) : Rel o o := Or.inl rfl
 
 theorem strong_false {o : Obj} (h : strong o = false) : o.mod = false ∧ o.del = false := by
   unfold strong at h
-  simpa using h
+  simp only [Bool.or_eq_false_iff] at h
+  exact ⟨h.1.1, h.2⟩
+
+theorem strong_false_touched {o : Obj} (h : strong o = false) : o.touched = false := by
+  unfold strong at h
+  simp only [Bool.or_eq_false_iff] at h
+  exact h.1.2
 
 /-- outputs agree up to the size of the identity map -/
 def ObsEq (a b : Out) : Prop := a = b ∨ ∃ x y, a = .num x ∧ b = .num y
@@ -267,6 +345,7 @@ theorem sim_get (nw : Option (Int × Bool)) (og os : Option Obj) (row : Option I
   rcases hr with rfl | ⟨rfl, o, rfl, ha, hs⟩
   · exact slotSim_of_eq rfl
   · obtain ⟨hm, hd⟩ := strong_false hs
+    have ht := strong_false_touched hs
     obtain ⟨h1, _, _⟩ := hi o rfl
     unfold getSlot
     cases nw with
@@ -349,10 +428,48 @@ theorem sim_exp (nw : Option (Int × Bool)) (og os : Option Obj) (hr : Rel og os
       simp only [ha, Bool.false_and, Bool.false_eq_true, if_false]
       exact ⟨rfl, rfl, Or.inr ⟨rfl, o, rfl, ha, hs⟩⟩
 
+theorem sim_expVal (nw : Option (Int × Bool)) (og os : Option Obj) (hr : Rel og os) :
+    SlotSim (expValSlot nw og) (expValSlot nw os) := by
+  rcases hr with rfl | ⟨rfl, o, rfl, ha, hs⟩
+  · exact slotSim_of_eq rfl
+  · unfold expValSlot
+    cases nw with
+    | some p => exact ⟨rfl, rfl, Or.inr ⟨rfl, o, rfl, ha, hs⟩⟩
+    | none =>
+      simp only [ha, Bool.false_and, Bool.false_eq_true, if_false]
+      exact ⟨rfl, rfl, Or.inr ⟨rfl, o, rfl, ha, hs⟩⟩
+
+theorem sim_expId (nw : Option (Int × Bool)) (og os : Option Obj) (hr : Rel og os) :
+    SlotSim (expIdSlot nw og) (expIdSlot nw os) := by
+  rcases hr with rfl | ⟨rfl, o, rfl, ha, hs⟩
+  · exact slotSim_of_eq rfl
+  · unfold expIdSlot
+    cases nw with
+    | some p => exact ⟨rfl, rfl, Or.inr ⟨rfl, o, rfl, ha, hs⟩⟩
+    | none =>
+      simp only [ha, Bool.false_and, Bool.false_eq_true, if_false]
+      exact ⟨rfl, rfl, Or.inr ⟨rfl, o, rfl, ha, hs⟩⟩
+
+theorem sim_setDead (nw : Option (Int × Bool)) (og os : Option Obj) (hr : Rel og os) :
+    SlotSim (setDeadSlot nw og) (setDeadSlot nw os) := by
+  rcases hr with rfl | ⟨rfl, o, rfl, ha, hs⟩
+  · exact slotSim_of_eq rfl
+  · unfold setDeadSlot
+    cases nw with
+    | some p => exact ⟨rfl, rfl, Or.inr ⟨rfl, o, rfl, ha, hs⟩⟩
+    | none =>
+      simp only [ha, Bool.false_and, Bool.false_eq_true, if_false]
+      exact ⟨rfl, rfl, Or.inr ⟨rfl, o, rfl, ha, hs⟩⟩
+
+theorem rel_touched {og os : Option Obj} (h : Rel og os) : touchedOpt og = touchedOpt os := by
+  rcases h with rfl | ⟨rfl, o, rfl, _, hs⟩
+  · rfl
+  · simp [touchedOpt, strong_false_touched hs]
+
 theorem sim_putSlot {g s : St} (hs : Sim g s) (k : Nat) (rg rs : Slot × Out) (h : SlotSim rg rs) :
     Sim (putSlot g k rg).1 (putSlot s k rs).1 ∧ (putSlot g k rg).2 = (putSlot s k rs).2 := by
   obtain ⟨h1, h2, h3⟩ := h
-  refine ⟨⟨hs.db, hs.saved, ?_, ?_⟩, h2⟩
+  refine ⟨⟨hs.db, hs.saved, ?_, hs.txn, ?_⟩, h2⟩
   · funext j
     simp only [putSlot]
     by_cases hj : j = k
@@ -366,7 +483,7 @@ theorem sim_putSlot {g s : St} (hs : Sim g s) (k : Nat) (rg rs : Slot × Out) (h
 
 /-- collection keeps the simulation -/
 theorem sim_collect {g s : St} (hs : Sim g s) : Sim (collect g) s := by
-  refine ⟨hs.db, hs.saved, hs.new, ?_⟩
+  refine ⟨hs.db, hs.saved, hs.new, hs.txn, ?_⟩
   intro k
   simp only [collect]
   rcases hs.objs k with h | ⟨h, o, ho, ha, hst⟩
@@ -431,7 +548,7 @@ theorem sim_doFlush (c : Cfg) {g s : St} (hs : Sim g s) :
     · left; simp [hd]
     · right
       simp only [hd, Bool.false_eq_true, if_false]
-      refine ⟨_, _, rfl, rfl, ⟨?_, ?_, ?_, ?_⟩⟩
+      refine ⟨_, _, rfl, rfl, ⟨?_, ?_, ?_, ?_, ?_⟩⟩
       · funext k
         simp only
         by_cases hk : k < c.n
@@ -439,6 +556,7 @@ theorem sim_doFlush (c : Cfg) {g s : St} (hs : Sim g s) :
         · simp only [hk, if_false]; rw [hs.db]
       · simp only; rw [hs.saved, hs.db]
       · funext k; simp only; rw [hs.new]
+      · exact hs.txn
       · intro k
         simp only
         by_cases hk : k < c.n
@@ -453,68 +571,124 @@ theorem rel_map_expire {og os : Option Obj} (h : Rel og os) :
   rcases h with rfl | ⟨rfl, o, rfl, ha, hs⟩
   · exact rel_refl _
   · obtain ⟨_, hd⟩ := strong_false hs
-    exact Or.inr ⟨rfl, _, rfl, ha, by simp [strong, hd]⟩
+    exact Or.inr ⟨rfl, _, rfl, ha, by simp [strong, hd, strong_false_touched hs]⟩
+
+theorem sim_len (c : Cfg) {g s : St} (hs : Sim g s) :
+    Sim g s ∧ ObsEq (Out.num ((List.range c.n).filter (fun k => (g.objs k).isSome)).length)
+                    (Out.num ((List.range c.n).filter (fun k => (s.objs k).isSome)).length) :=
+  ⟨hs, Or.inr ⟨_, _, rfl, rfl⟩⟩
+
+theorem sim_stepLive (c : Cfg) {g s : St} (op : Op) (hs : Sim g s) (hi : Inv s)
+    (hnr : op ≠ .rollback) (hni : (stepLive c s op).2 ≠ .integrity) :
+    Sim (stepLive c g op).1 (stepLive c s op).1 ∧ ObsEq (stepLive c g op).2 (stepLive c s op).2 := by
+  cases op with
+  | get k =>
+    simp only [stepLive]
+    rw [hs.new, hs.db]
+    obtain ⟨h1, h2⟩ := sim_putSlot hs k _ _ (sim_get (s.new k) _ _ (s.db k) (hs.objs k) (hi k))
+    exact ⟨h1, Or.inl h2⟩
+  | set k v =>
+    simp only [stepLive]
+    rw [hs.new]
+    obtain ⟨h1, h2⟩ := sim_putSlot hs k _ _ (sim_set v (s.new k) _ _ (hs.objs k))
+    exact ⟨h1, Or.inl h2⟩
+  | del k =>
+    simp only [stepLive]
+    rw [hs.new]
+    obtain ⟨h1, h2⟩ := sim_putSlot hs k _ _ (sim_del (s.new k) _ _ (hs.objs k))
+    exact ⟨h1, Or.inl h2⟩
+  | add k v =>
+    simp only [stepLive]
+    rw [hs.new]
+    obtain ⟨h1, h2⟩ := sim_putSlot hs k _ _ (sim_add v (s.new k) _ _ (hs.objs k))
+    exact ⟨h1, Or.inl h2⟩
+  | drop k =>
+    simp only [stepLive]
+    rw [hs.new]
+    obtain ⟨h1, h2⟩ := sim_putSlot hs k _ _ (sim_drop (s.new k) _ _ (hs.objs k))
+    exact ⟨h1, Or.inl h2⟩
+  | expire k =>
+    simp only [stepLive]
+    rw [hs.new]
+    obtain ⟨h1, h2⟩ := sim_putSlot hs k _ _ (sim_exp (s.new k) _ _ (hs.objs k))
+    exact ⟨h1, Or.inl h2⟩
+  | expireVal k =>
+    simp only [stepLive]
+    rw [hs.new]
+    obtain ⟨h1, h2⟩ := sim_putSlot hs k _ _ (sim_expVal (s.new k) _ _ (hs.objs k))
+    exact ⟨h1, Or.inl h2⟩
+  | expireId k =>
+    simp only [stepLive]
+    rw [hs.new]
+    obtain ⟨h1, h2⟩ := sim_putSlot hs k _ _ (sim_expId (s.new k) _ _ (hs.objs k))
+    exact ⟨h1, Or.inl h2⟩
+  | begin => exact ⟨hs, Or.inl rfl⟩
+  | flush =>
+    simp only [stepLive] at hni ⊢
+    rcases sim_doFlush c hs with ⟨hg, hs'⟩ | ⟨g1, s1, hg, hs', h1⟩
+    · simp [hs'] at hni
+    · rw [hg, hs']; exact ⟨h1, Or.inl rfl⟩
+  | commit =>
+    simp only [stepLive] at hni ⊢
+    rcases sim_doFlush c hs with ⟨hg, hs'⟩ | ⟨g1, s1, hg, hs', h1⟩
+    · simp [hs'] at hni
+    · rw [hg, hs']
+      refine ⟨⟨h1.db, rfl, h1.new, rfl, ?_⟩, Or.inl rfl⟩
+      intro k
+      by_cases he : c.eoc = true
+      · simp only [he, if_true]; exact rel_map_expire (h1.objs k)
+      · simp only [he, Bool.false_eq_true, if_false]; exact h1.objs k
+  | rollback => exact absurd rfl hnr
+  | len => exact sim_len c hs
+
+theorem sim_stepDead (c : Cfg) {g s : St} (op : Op) (hs : Sim g s) :
+    Sim (stepDead c g op).1 (stepDead c s op).1 ∧ ObsEq (stepDead c g op).2 (stepDead c s op).2 := by
+  cases op with
+  | set k v =>
+    simp only [stepDead]
+    have ht : anyBelow c.n (fun j => touchedOpt (g.objs j)) = anyBelow c.n (fun j => touchedOpt (s.objs j)) := by
+      congr 1; funext j; exact rel_touched (hs.objs j)
+    rw [ht, hs.new]
+    split
+    · obtain ⟨h1, h2⟩ := sim_putSlot hs k _ _ (sim_set v (s.new k) _ _ (hs.objs k))
+      exact ⟨h1, Or.inl h2⟩
+    · obtain ⟨h1, h2⟩ := sim_putSlot hs k _ _ (sim_setDead (s.new k) _ _ (hs.objs k))
+      exact ⟨h1, Or.inl h2⟩
+  | drop k =>
+    simp only [stepDead]
+    rw [hs.new]
+    obtain ⟨h1, h2⟩ := sim_putSlot hs k _ _ (sim_drop (s.new k) _ _ (hs.objs k))
+    exact ⟨h1, Or.inl h2⟩
+  | begin => exact ⟨⟨hs.db, hs.saved, hs.new, rfl, hs.objs⟩, Or.inl rfl⟩
+  | len => exact sim_len c hs
+  | get k => exact ⟨hs, Or.inl rfl⟩
+  | del k => exact ⟨hs, Or.inl rfl⟩
+  | add k v => exact ⟨hs, Or.inl rfl⟩
+  | expire k => exact ⟨hs, Or.inl rfl⟩
+  | expireVal k => exact ⟨hs, Or.inl rfl⟩
+  | expireId k => exact ⟨hs, Or.inl rfl⟩
+  | flush => exact ⟨hs, Or.inl rfl⟩
+  | commit => exact ⟨hs, Or.inl rfl⟩
+  | rollback => exact ⟨hs, Or.inl rfl⟩
 
 /-- one step of the reference semantics simulates one step of the other, without the
     final collection -/
 theorem sim_step_raw (c : Cfg) {g s : St} (op : Op) (hs : Sim g s) (hi : Inv s) (hq : Calm c s op) :
     Sim (step c g op).1 (step c s op).1 ∧ ObsEq (step c g op).2 (step c s op).2 := by
   obtain ⟨hnr, hni⟩ := hq
-  cases op with
-  | get k =>
-    simp only [step]
-    rw [hs.new, hs.db]
-    obtain ⟨h1, h2⟩ := sim_putSlot hs k _ _ (sim_get (s.new k) _ _ (s.db k) (hs.objs k) (hi k))
-    exact ⟨h1, Or.inl h2⟩
-  | set k v =>
-    simp only [step]
-    rw [hs.new]
-    obtain ⟨h1, h2⟩ := sim_putSlot hs k _ _ (sim_set v (s.new k) _ _ (hs.objs k))
-    exact ⟨h1, Or.inl h2⟩
-  | del k =>
-    simp only [step]
-    rw [hs.new]
-    obtain ⟨h1, h2⟩ := sim_putSlot hs k _ _ (sim_del (s.new k) _ _ (hs.objs k))
-    exact ⟨h1, Or.inl h2⟩
-  | add k v =>
-    simp only [step]
-    rw [hs.new]
-    obtain ⟨h1, h2⟩ := sim_putSlot hs k _ _ (sim_add v (s.new k) _ _ (hs.objs k))
-    exact ⟨h1, Or.inl h2⟩
-  | drop k =>
-    simp only [step]
-    rw [hs.new]
-    obtain ⟨h1, h2⟩ := sim_putSlot hs k _ _ (sim_drop (s.new k) _ _ (hs.objs k))
-    exact ⟨h1, Or.inl h2⟩
-  | expire k =>
-    simp only [step]
-    rw [hs.new]
-    obtain ⟨h1, h2⟩ := sim_putSlot hs k _ _ (sim_exp (s.new k) _ _ (hs.objs k))
-    exact ⟨h1, Or.inl h2⟩
-  | flush =>
-    simp only [step] at hni ⊢
-    rcases sim_doFlush c hs with ⟨hg, hs'⟩ | ⟨g1, s1, hg, hs', h1⟩
-    · simp [hs'] at hni
-    · rw [hg, hs']; exact ⟨h1, Or.inl rfl⟩
-  | commit =>
-    simp only [step] at hni ⊢
-    rcases sim_doFlush c hs with ⟨hg, hs'⟩ | ⟨g1, s1, hg, hs', h1⟩
-    · simp [hs'] at hni
-    · rw [hg, hs']
-      refine ⟨⟨h1.db, rfl, h1.new, ?_⟩, Or.inl rfl⟩
-      intro k
-      by_cases he : c.eoc = true
-      · simp only [he, if_true]; exact rel_map_expire (h1.objs k)
-      · simp only [he, Bool.false_eq_true, if_false]; exact h1.objs k
-  | rollback => exact absurd rfl hnr
-  | len => exact ⟨hs, Or.inr ⟨_, _, rfl, rfl⟩⟩
+  have hl : live c g = live c s := by unfold live; rw [hs.txn]
+  unfold step at hni ⊢
+  rw [hl]
+  by_cases hls : live c s = true
+  · simp only [hls, if_true] at hni ⊢; exact sim_stepLive c op hs hi hnr hni
+  · simp only [hls, Bool.false_eq_true, if_false]; exact sim_stepDead c op hs
 
 theorem sim_step (c : Cfg) {g s : St} (op : Op) (hs : Sim g s) (hi : Inv s) (hq : Calm c s op) :
     Sim (stepGc c g op).1 (step c s op).1 ∧ ObsEq (stepGc c g op).2 (step c s op).2 := by
   obtain ⟨h1, h2⟩ := sim_step_raw c op hs hi hq
   exact ⟨sim_collect h1, h2⟩
 
-theorem sim_init : Sim St.init St.init := ⟨rfl, rfl, rfl, fun _ => rel_refl _⟩
+theorem sim_init : Sim St.init St.init := ⟨rfl, rfl, rfl, rfl, fun _ => rel_refl _⟩
 
 /-- pointwise `ObsEq` of two output lists -/
 inductive ObsEqL : List Out → List Out → Prop
@@ -568,9 +742,9 @@ def phantomOps : List Op :=
   [.add 0 1, .flush, .drop 0, .get 0, .rollback, .len, .set 0 5, .flush]
 
 theorem gc_unobservable_counterexample :
-    outsGc ⟨1, false⟩ St.init phantomOps =
+    outsGc ⟨1, false, true⟩ St.init phantomOps =
       [.done, .done, .done, .val (some 1), .done, .num 1, .done, .integrity] ∧
-    outs ⟨1, false⟩ St.init phantomOps =
+    outs ⟨1, false, true⟩ St.init phantomOps =
       [.done, .done, .done, .val (some 1), .done, .num 0, .skip, .done] := by
   decide
 
@@ -587,7 +761,7 @@ theorem collect_keeps_strong (st : St) (k : Nat) (o : Obj) (ho : st.objs k = som
 theorem collect_flush_db (c : Cfg) (st : St) :
     (doFlush c (collect st) = none ∧ doFlush c st = none) ∨
     ∃ g1 s1, doFlush c (collect st) = some g1 ∧ doFlush c st = some s1 ∧ g1.db = s1.db := by
-  have hs : Sim (collect st) st := sim_collect ⟨rfl, rfl, rfl, fun _ => rel_refl _⟩
+  have hs : Sim (collect st) st := sim_collect ⟨rfl, rfl, rfl, rfl, fun _ => rel_refl _⟩
   rcases sim_doFlush c hs with h | ⟨g1, s1, h1, h2, h3⟩
   · exact Or.inl h
   · exact Or.inr ⟨g1, s1, h1, h2, h3.db⟩
@@ -597,6 +771,27 @@ theorem collect_flush_db (c : Cfg) (st : St) :
 theorem collect_releases (st : St) (k : Nat) (o : Obj) (ho : st.objs k = some o)
     (ha : o.app = false) (hs : strong o = false) : (collect st).objs k = none := by
   simp [collect, ho, ha, hs]
+
+/-- **partial_expire_keeps_strong**: `session.expire(obj, [exactly the modified attribute])`
+    takes the history away but the state stays in `_modified` with its strong reference: the
+    object is not collected, whatever the application drops, until the next flush. -/
+theorem partial_expire_keeps_strong (c : Cfg) (st : St) (k : Nat) (o : Obj)
+    (hl : live c st = true) (hn : st.new k = none) (ho : st.objs k = some o) (ht : o.touched = true) :
+    ∃ o', (stepGc c st (.expireVal k)).1.objs k = some o' ∧ o'.touched = true := by
+  simp only [stepGc, step, hl, if_true, stepLive, putSlot, expValSlot, hn, ho, collect]
+  by_cases hc : (o.app && !o.del) = true
+  · simp [hc, strong, ht]
+  · simp [hc, ho, strong, ht]
+
+/-- **refused_change_keeps_strong**: with autobegin=False the first change made outside a
+    transaction is refused, but the state is in `_modified` by then and must be (and is)
+    strongly referenced — otherwise a later flush would trip over a dead entry. -/
+theorem refused_change_keeps_strong (c : Cfg) (st : St) (k : Nat) (v : Int) (o : Obj)
+    (hl : live c st = false) (hnone : anyBelow c.n (fun j => touchedOpt (st.objs j)) = false)
+    (hn : st.new k = none) (ho : st.objs k = some o) (ha : o.app = true) (hd : o.del = false) :
+    (stepGc c st (.set k v)).2 = .raised ∧
+    ∃ o', (stepGc c st (.set k v)).1.objs k = some o' ∧ o'.touched = true ∧ o'.val = o.val := by
+  simp [stepGc, step, hl, stepDead, hnone, putSlot, setDeadSlot, hn, ho, ha, hd, collect, strong]
 
 /-! ## non-vacuity -/
 
@@ -622,21 +817,33 @@ theorem calmRun_of_calmB (c : Cfg) : ∀ (ops : List Op) (s : St), calmB c s ops
 
 /-- the hypothesis of `gc_unobservable_partial` is satisfiable by a history with drops,
     collections and flushes -/
-example : CalmRun ⟨1, false⟩ St.init [.add 0 1, .commit, .drop 0, .get 0, .set 0 2, .drop 0, .flush, .len] :=
+example : CalmRun ⟨1, false, true⟩ St.init [.add 0 1, .commit, .drop 0, .get 0, .set 0 2, .drop 0, .flush, .len] :=
   calmRun_of_calmB _ _ _ (by decide)
 
 /-- modify, drop the reference, collect, flush: the change is written; the clean object
     is released afterwards -/
 example :
-    let c : Cfg := ⟨1, false⟩
+    let c : Cfg := ⟨1, false, true⟩
     outsGc c St.init [.add 0 1, .commit, .len, .drop 0, .len, .get 0, .set 0 2, .drop 0, .len, .flush, .len] =
       [.done, .done, .num 1, .done, .num 0, .val (some 1), .done, .done, .num 1, .done, .num 0] ∧
     (runGc c St.init [.add 0 1, .commit, .drop 0, .get 0, .set 0 2, .drop 0, .flush]).db 0 = some 2 := by
   decide
 
+/-- autobegin=False: a refused change, the object dropped and collected (it is not: the Session
+    holds it), then a proper transaction changing and dropping another object: both changes of
+    state are consistent and the flush writes the second object's value -/
+example :
+    let c : Cfg := ⟨2, false, false⟩
+    outsGc c St.init [.begin, .add 0 1, .add 1 2, .commit, .set 0 5, .drop 0, .len, .begin, .set 1 6, .drop 1,
+                      .flush, .len] =
+      [.done, .done, .done, .done, .raised, .done, .num 2, .done, .done, .done, .done, .num 0] ∧
+    (runGc c St.init [.begin, .add 0 1, .add 1 2, .commit, .set 0 5, .drop 0, .begin, .set 1 6, .drop 1, .flush]).db 1 = some 6 ∧
+    CalmRun c St.init [.begin, .add 0 1, .add 1 2, .commit, .set 0 5, .drop 0, .begin, .set 1 6, .drop 1, .flush] :=
+  ⟨by decide, by decide, calmRun_of_calmB _ _ _ (by decide)⟩
+
 /-- the two semantics really differ on `len` (the theorem's exception is needed) -/
 example :
-    let c : Cfg := ⟨1, false⟩
+    let c : Cfg := ⟨1, false, true⟩
     outs c St.init [.add 0 1, .commit, .drop 0, .len] ≠ outsGc c St.init [.add 0 1, .commit, .drop 0, .len] := by
   decide
 
